@@ -39,7 +39,9 @@ func methodTypes(proxy any, f *rc.Func) ([]reflect.Type, reflect.Type, error) {
 	return ins, ret, nil
 }
 
-// JSONCapable: encoding/json cannot carry bool-keyed maps.
+// JSONCapable: encoding/json cannot carry bool-keyed maps; structs generated with
+// -json-omitempty drop zero-valued members from the JSON form (lossy by the option's own
+// definition), so JSON transparency is not asserted for functions that carry them.
 func JSONCapable(f *rc.Func) bool {
 	var ok func(t *rc.Type) bool
 	ok = func(t *rc.Type) bool {
@@ -52,6 +54,9 @@ func JSONCapable(f *rc.Func) bool {
 		case rc.KVector, rc.KArray:
 			return ok(t.Elem)
 		case rc.KStruct:
+			if t.Struct.JSONOmitEmpty {
+				return false
+			}
 			for _, fl := range t.Struct.Fields {
 				if !ok(fl.Type) {
 					return false
